@@ -12,7 +12,7 @@ import numpy as np
 from ...FEM import MatrixType, _GroupElem
 from ...FEM._linalg import FeArray, Transpose, Det
 from ...Utilities import _types, _params
-from ...Utilities._cache import cache_computed_values
+from ...Utilities._cache import cache_computed_values, clear_cached_computed_values
 
 # ------------------------------------------------------------------------------
 # Functions for matrices
@@ -73,6 +73,9 @@ class HyperElasticState:
 
     @matrixType.setter
     def matrixType(self, value: Union[int, MatrixType]):
+        if value != self.__matrixType:
+            # every cached quantity lives at the Gauss points of the previous integration rule
+            clear_cached_computed_values(self)
         self.__matrixType = value
 
     def _GetDims(
